@@ -1391,3 +1391,383 @@ M('c01-permfails-only-without-tempfails', 'C01', 'fire:R1.8',
             for reply, group_env in self._split_by_reply(fail_env, replies):
                 self._perm_fail(None, group_env, reply)
         self.store.remove(id)''', 1))
+
+
+# =================================================================== round 2
+# rules added after the second round of seeded changes: must-fire mutants and
+# behaviour-preserving twins
+HTTPM = 'slimta/http/__init__.py'
+DSN = 'slimta/smtp/datasender.py'
+RP = 'slimta/smtp/reply.py'
+
+# ---- C03 R3.6 / R3.7
+M('c03-position-counts-settled', 'C03', 'fire:R3.6',
+  (Q, '''            if rcpt_res is None or isinstance(rcpt_res, Reply):
+                delivered.add(envelope.recipients.index(rcpt))''',
+   '''            if rcpt_res is None or isinstance(rcpt_res, Reply):
+                delivered.add(len(delivered))''', 1))
+M('c03-twin-position-via-local', 'C03', 'silent',
+  (Q, '''            if rcpt_res is None or isinstance(rcpt_res, Reply):
+                delivered.add(envelope.recipients.index(rcpt))''',
+   '''            if rcpt_res is None or isinstance(rcpt_res, Reply):
+                pos = envelope.recipients.index(rcpt)
+                delivered.add(pos)''', 1))
+M('c03-mark-released-before-timestamp', 'C03', 'fire:R3.7',
+  (Q, '''        attempts = self.store.increment_attempts(id)
+        wait = self.backoff(envelope, attempts)''',
+   '''        attempts = self.store.increment_attempts(id)
+        self.active_ids.discard(id)
+        wait = self.backoff(envelope, attempts)''', 1))
+M('c03-twin-remove-order', 'C03', 'silent',
+  (Q, '''        self._pool_spawn('store', self.store.remove, id)
+        self.queued_ids.discard(id)
+        self.active_ids.discard(id)''',
+   '''        self._pool_spawn('store', self.store.remove, id)
+        self.active_ids.discard(id)
+        self.queued_ids.discard(id)''', 1))
+# ---- C12 Q6 (bisect) / Q8 / Q9
+M('c12-bisect-strict-cut', 'C12', 'fire:Q6',
+  (Q, '''        last_i = 0
+        for i, entry in enumerate(self.queued):
+            timestamp, entry_id = entry
+            if now >= timestamp:
+                last_i = i+1
+            else:
+                break
+''', '''        last_i = bisect.bisect_left(self.queued, (now, ))
+''', 1))
+M('c12-requeue-not-in-finally', 'C12', 'fire:Q8',
+  (Q, '''            finally:
+                self.active_ids.discard(id)
+                self._add_queued((when, id))
+            return True''', '''            finally:
+                self.active_ids.discard(id)
+            self._add_queued((when, id))
+            return True''', 1))
+M('c12-spawn-waits-while-holding', 'C12', 'fire:Q9',
+  (Q, '''        if pool is not gevent and self._holds_pool_slot():''',
+   '''        if False:''', 1))
+M('c12-holder-test-one-pool', 'C12', 'fire:Q9',
+  (Q, '''        for attr in ('store_pool', 'relay_pool'):''',
+   '''        for attr in ('store_pool', ):''', 1))
+M('c12-bounce-in-store-pool', 'C12', 'fire:Q9',
+  (Q, '''            self._pool_spawn('bounce', self._bounce, envelope, reply)''',
+   '''            self._pool_run('store', self._bounce, envelope, reply)''', 1))
+M('c12-twin-holder-renamed', 'C12', 'silent',
+  (Q, '''_holds_pool_slot''', '''_runs_in_own_pool''', 2))
+M('c01-pool-cycle', 'C01', 'fire:R1.11',
+  (Q, '''        if pool is not gevent and self._holds_pool_slot():''',
+   '''        if False:''', 1))
+# ---- C13 B3 provenance / B5
+M('c13-first-reply-for-all', 'C13', 'fire:B3',
+  (Q, '''            for reply, group_env in self._split_by_reply(fail_env, replies):
+                self._perm_fail(None, group_env, reply)
+        if tempfails:''', '''            for reply, group_env in self._split_by_reply(fail_env, replies):
+                self._perm_fail(None, group_env, replies[0])
+        if tempfails:''', 1))
+M('c13-embedded-headers-transformed', 'C13', 'fire:B5',
+  (BO, '''        new_payload.write(header_data)''',
+   '''        new_payload.write(header_data.replace(b'\\r\\n ', b' '))''', 1))
+M('c13-body-only-when-small', 'C13', 'fire:B5',
+  (BO, '''        if not headers_only:
+            new_payload.write(message_data)''',
+   '''        if not headers_only and len(message_data) < 65536:
+            new_payload.write(message_data)''', 1))
+M('c13-twin-flatten-of-alias', 'C13', 'silent',
+  (BO, '''        header_data, message_data = envelope.flatten()''',
+   '''        original = envelope
+        header_data, message_data = original.flatten()''', 1))
+M('c13-twin-flatten-of-copy', 'C13', 'silent',
+  (BO, '''        header_data, message_data = envelope.flatten()''',
+   '''        header_data, message_data = envelope.copy().flatten()''', 1))
+# ---- C02 R2.5
+M('c02-enqueue-drops-last-envelope', 'C02', 'fire:R2.5',
+  (Q, '''        envelopes = self._run_policies(envelope)
+''', '''        envelopes = self._run_policies(envelope)
+        if len(envelopes) > 8:
+            envelopes.pop()
+''', 1))
+# ---- C04 R4.4 ext / R4.6 / R4.7
+M('c04-write-meta-skips-unchanged', 'C04', 'fire:R4.6',
+  (DS, '''    def write_meta(self, id, meta):
+        final_path''', '''    def write_meta(self, id, meta):
+        if not meta:
+            return
+        final_path''', 1))
+M('c04-twin-read-meta-local', 'C04', 'silent',
+  (DS, '''        path = os.path.join(self.meta_dir, id+'.meta')
+        return AioFile(path).pickle_load()''',
+   '''        path = os.path.join(self.meta_dir, id+'.meta')
+        meta = AioFile(path).pickle_load()
+        return meta''', 1))
+M('c04-twin-read-helper', 'C04', 'silent',
+  (DS, '''    def read_meta(self, id):
+        path = os.path.join(self.meta_dir, id+'.meta')
+        return AioFile(path).pickle_load()''',
+   '''    def _read(self, path):
+        return AioFile(path).pickle_load()
+
+    def read_meta(self, id):
+        path = os.path.join(self.meta_dir, id+'.meta')
+        return self._read(path)''', 1))
+M('c04-scan-deletes-damaged', 'C04', 'fire:R4.7',
+  (DS, '''            except OSError:
+                logging.log_exception(__name__, queue_id=id)''',
+   '''            except OSError:
+                logging.log_exception(__name__, queue_id=id)
+                self.ops.delete_env(id)''', 1))
+M('c04-missing-meta-as-valueerror', 'C04', 'fire:R4.4',
+  (DS, '''        path = os.path.join(self.meta_dir, id+'.meta')
+        return AioFile(path).pickle_load()''',
+   '''        path = os.path.join(self.meta_dir, id+'.meta')
+        if not os.path.exists(path):
+            raise ValueError(id)
+        return AioFile(path).pickle_load()''', 1))
+# ---- C05 R5.5 / R5.6
+M('c05-reader-needs-crlf', 'C05', 'fire:R5.5',
+  (DR, '''fullline_pattern = re.compile(br'.*\\n')''',
+   '''fullline_pattern = re.compile(br'.*\\r\\n')''', 1))
+M('c05-sender-stuffs-after-crlf-only', 'C05', 'fire:R5.5',
+  (DSN, '''            index = part.find(b'\\n.', i)''',
+   '''            index = part.find(b'\\r\\n.', i)''', 1))
+M('c05-sender-offset-short', 'C05', 'fire:R5.5',
+  (DSN, '''                yield b'.'
+                i = index+2''', '''                yield b'.'
+                i = index+1''', 1))
+M('c05-twin-reader-negated-class', 'C05', 'silent',
+  (DR, '''fullline_pattern = re.compile(br'.*\\n')''',
+   '''fullline_pattern = re.compile(br'[^\\n]*\\n')''', 1))
+M('c05-blank-lines-not-examined', 'C05', 'fire:R5.6',
+  (DR, '''            self._append_line(match.group(0))
+            self.handle_finished_line()''',
+   '''            self._append_line(match.group(0))
+            if match.group(0) != b'\\r\\n':
+                self.handle_finished_line()
+            else:
+                self.i += 1''', 1))
+M('c05-twin-add-lines-local', 'C05', 'silent',
+  (DR, '''            self._append_line(match.group(0))
+            self.handle_finished_line()''',
+   '''            line = match.group(0)
+            self._append_line(line)
+            self.handle_finished_line()''', 1))
+# ---- C07 R7.5 ext
+M('c07-mail-keeps-envelope', 'C07', 'fire:R7.5',
+  (ES, '''            self.envelope = Envelope(sender=address)''',
+   '''            if self.envelope is None:
+                self.envelope = Envelope(sender=address)
+            self.envelope.sender = address''', 1))
+M('c07-twin-mail-fresh-via-local', 'C07', 'silent',
+  (ES, '''            self.envelope = Envelope(sender=address)''',
+   '''            fresh = Envelope(sender=address)
+            self.envelope = fresh''', 1))
+M('c07-rcpt-recorded-before-validator', 'C07', 'fire:R7.5',
+  (ES, '''        self._call_validator('rcpt', reply, address, params)
+        if reply.code == '250':
+            assert self.envelope is not None
+            self.envelope.recipients.append(address)''',
+   '''        if reply.code == '250':
+            assert self.envelope is not None
+            self.envelope.recipients.append(address)
+        self._call_validator('rcpt', reply, address, params)''', 1))
+# ---- C08
+M('c08-rset-clears-authed', 'C08', 'fire:R8.3',
+  (SRV, '''        if reply.code == '250':
+            self.have_mailfrom = None
+            self.have_rcptto = None
+
+    def _command_NOOP''', '''        if reply.code == '250':
+            self.have_mailfrom = None
+            self.have_rcptto = None
+            self.authed = False
+
+    def _command_NOOP''', 1))
+# ---- C09 G7 / G8
+M('c09-flush-only-after-commands', 'C09', 'fire:G7',
+  (SRV, '''                finally:
+                    self.io.flush_send()
+
+                command, arg = self._recv_command()''',
+   '''                finally:
+                    if command:
+                        self.io.flush_send()
+
+                command, arg = self._recv_command()''', 1))
+M('c09-line-limit-on-buffer', 'C09', 'fire:G8',
+  (IOF, '''            self.buffered_recv()
+
+    def recv_command''', '''            if len(self.recv_buffer) > 8192:
+                raise ConnectionLost()
+            self.buffered_recv()
+
+    def recv_command''', 1))
+M('c09-twin-extra-flush-before-close', 'C09', 'silent',
+  (SRV, '''                except StopIteration:
+                    self._call_custom_handler('CLOSE')
+                    break''', '''                except StopIteration:
+                    self.io.flush_send()
+                    self._call_custom_handler('CLOSE')
+                    break''', 1))
+# ---- C10 F7
+M('c10-recv-skips-blank-reply', 'C10', 'fire:F7',
+  (RP, '''        self.code, self.message = io.recv_reply()
+        self.address = io.address''', '''        self.code, self.message = io.recv_reply()
+        if not self.message:
+            self.code, self.message = io.recv_reply()
+        self.address = io.address''', 1))
+M('c10-twin-recv-via-local', 'C10', 'silent',
+  (RP, '''        self.code, self.message = io.recv_reply()''',
+   '''        pair = io.recv_reply()
+        self.code, self.message = pair''', 1))
+# ---- C11 N3 ext / N4 dns
+M('c11-lmtp-rset-before-result', 'C11', 'fire:N3',
+  (LC, '''        result.set(rcpt_results)
+        if had_errors:
+            self._rset()''', '''        if had_errors:
+            self._rset()
+        result.set(rcpt_results)''', 1))
+M('c11-smtp-probe-before-result', 'C11', 'fire:N3',
+  (RC, '''                    rcpt_results[key] = msg_result
+            result.set(rcpt_results)''', '''                    rcpt_results[key] = msg_result
+            self._check_server_timeout()
+            result.set(rcpt_results)''', 1))
+M('c11-dns-timeout-as-nxdomain', 'C11', 'fire:N4',
+  (MX, '''from pycares.errno import ARES_ENOTFOUND, ARES_ENODATA''',
+   '''from pycares.errno import ARES_ENOTFOUND, ARES_ENODATA, ARES_ETIMEOUT''',
+   1),
+  (MX, '''        non_fatal_errors = (ARES_ENOTFOUND, ARES_ENODATA)''',
+   '''        non_fatal_errors = (ARES_ENOTFOUND, ARES_ENODATA, ARES_ETIMEOUT)''',
+   1))
+M('c11-twin-dns-codes-as-set', 'C11', 'silent',
+  (MX, '''        non_fatal_errors = (ARES_ENOTFOUND, ARES_ENODATA)''',
+   '''        non_fatal_errors = frozenset([ARES_ENODATA, ARES_ENOTFOUND])''',
+   1))
+M('c01-lmtp-rset-before-result', 'C01', 'fire:R1.12',
+  (LC, '''        result.set(rcpt_results)
+        if had_errors:
+            self._rset()''', '''        if had_errors:
+            self._rset()
+        result.set(rcpt_results)''', 1))
+# ---- C14 T5 / T1 unwrap
+M('c14-server-data-timeout-no-fallback', 'C14', 'fire:T5',
+  (SRV, '''        self.data_timeout = data_timeout or command_timeout''',
+   '''        self.data_timeout = data_timeout''', 1))
+M('c14-twin-fallback-ifexp', 'C14', 'silent',
+  (SRV, '''        self.data_timeout = data_timeout or command_timeout''',
+   '''        self.data_timeout = (data_timeout if data_timeout is not None
+                             else command_timeout)''', 1))
+M('c14-close-waits-for-peer', 'C14', 'fire:T1',
+  (IOF, '''                self.socket.settimeout(0.0)
+''', '', 1))
+M('c14-http-close-unbounded', 'C14', 'fire:T1',
+  (HT, '''        with gevent.Timeout(self.relay.timeout, False):
+            self.conn.close()''', '''        self.conn.close()''', 1))
+M('c14-twin-http-close-try', 'C14', 'silent',
+  (HT, '''        with gevent.Timeout(self.relay.timeout, False):
+            self.conn.close()''', '''        try:
+            with gevent.Timeout(self.relay.timeout):
+                self.conn.close()
+        except gevent.Timeout:
+            pass''', 1))
+# ---- C15 I9 / I11
+M('c15-shared-default-meta', 'C15', 'fire:I9',
+  (QD, '''    def __init__(self, envelope_db=None, meta_db=None):
+        super(DictStorage, self).__init__()
+        self.env_db = envelope_db if envelope_db is not None else {}
+        self.meta_db = meta_db if meta_db is not None else {}''',
+   '''    def __init__(self, envelope_db=None, meta_db={}):
+        super(DictStorage, self).__init__()
+        self.env_db = envelope_db if envelope_db is not None else {}
+        self.meta_db = meta_db''', 1))
+M('c15-twin-default-created-inside', 'C15', 'silent',
+  (QD, '''        self.env_db = envelope_db if envelope_db is not None else {}''',
+   '''        self.env_db = {} if envelope_db is None else envelope_db''', 1))
+M('c15-redis-load-yields-key', 'C15', 'fire:I11',
+  (RS, '''                yield float(timestamp), id''',
+   '''                yield float(timestamp), key''', 1))
+M('c15-aws-write-returns-bare', 'C15', 'fire:I11',
+  (AWS, '''        key = self.Key(self.bucket)
+        key.key = self.prefix+str(uuid.uuid4())''',
+   '''        key = self.Key(self.bucket)
+        new_id = str(uuid.uuid4())
+        key.key = self.prefix+new_id''', 1),
+  (AWS, '''            key.set_contents_from_string(envelope_raw)
+        return key.key''', '''            key.set_contents_from_string(envelope_raw)
+        return new_id''', 1))
+# ---- C16 P3 module
+M('c16-date-presence-case-sensitive', 'C16', 'fire:P3',
+  (HD, '''        if 'date' not in envelope.headers:''',
+   '''        if 'Date' not in envelope.headers.keys():''', 1))
+M('c16-message-id-replaced', 'C16', 'fire:P3',
+  (HD, '''            envelope.headers['Message-Id'] = mid''',
+   '''            del envelope.headers['Message-Id']
+            envelope.headers['Message-Id'] = mid''', 1))
+# ---- C18
+M('c18-v2-addresses-by-slicing', 'C18', 'fire:V2',
+  (PX, '''            src_ip, dst_ip, src_port, dst_port = \\
+                struct.unpack('!4s4sHH', addr_data[0:12])''',
+   '''            src_ip, dst_ip = bytes(addr_data[0:4]), bytes(addr_data[4:8])
+            src_port, dst_port = struct.unpack('!HH', addr_data[8:12])''', 1))
+M('c18-lenient-ipv4', 'C18', 'fire:V4',
+  (PX, '''            packed = socket.inet_pton(addr_family, ip_string.decode('ascii'))''',
+   '''            packed = socket.inet_aton(ip_string.decode('ascii')) \\
+                if addr_family == socket.AF_INET else \\
+                socket.inet_pton(addr_family, ip_string.decode('ascii'))''', 1))
+# ---- C19 L1 count
+M('c19-check-idle-adds-two', 'C19', 'fire:L1',
+  (PL, '''        if not self.pool_size or len(self.pool) < self.pool_size:
+            self._add_client()''', '''        if not self.pool_size or len(self.pool) < self.pool_size:
+            self._add_client()
+            if len(self.queue) > 1:
+                self._add_client()''', 1))
+M('c19-twin-queue-truthiness', 'C19', 'silent',
+  (PL, '''        if len(self.queue) > 0 and not self.pool:''',
+   '''        if len(self.queue) >= 1 and not self.pool:''', 1))
+# ---- robustness twins for the round-2 rules
+M('c12-twin-inline-holder-test', 'C12', 'silent',
+  (Q, '''        if pool is not gevent and self._holds_pool_slot():''',
+   '''        if pool is not gevent and any(
+                gevent.getcurrent() in p for p in (
+                    getattr(self, 'store_pool', None) or (),
+                    getattr(self, 'relay_pool', None) or ())):''', 1))
+M('c09-twin-flush-helper', 'C09', 'silent',
+  (SRV, '''                finally:
+                    self.io.flush_send()
+
+                command, arg = self._recv_command()''',
+   '''                finally:
+                    self._flush_replies()
+
+                command, arg = self._recv_command()''', 1),
+  (SRV, '''    def _gather_params(self, remaining):''',
+   '''    def _flush_replies(self):
+        self.io.flush_send()
+
+    def _gather_params(self, remaining):''', 1))
+M('c11-twin-merge-helper-before-set', 'C11', 'silent',
+  (RC, '''            for key, value in rcpt_results.items():
+                if value is None:
+                    rcpt_results[key] = msg_result
+            result.set(rcpt_results)''',
+   '''            self._fill_in(rcpt_results, msg_result)
+            result.set(rcpt_results)''', 1),
+  (RC, '''    def _check_server_timeout(self):''',
+   '''    def _fill_in(self, rcpt_results, msg_result):
+        for key, value in rcpt_results.items():
+            if value is None:
+                rcpt_results[key] = msg_result
+
+    def _check_server_timeout(self):''', 1))
+M('c05-twin-cursor-helper', 'C05', 'silent',
+  (DR, '''        # Move internal trackers ahead.
+        self.i += 1
+''', '''        # Move internal trackers ahead.
+        self._advance()
+''', 1),
+  (DR, '''    def add_lines(self, piece):''', '''    def _advance(self):
+        self.i += 1
+
+    def add_lines(self, piece):''', 1))
+M('c16-twin-date-absent-by-get', 'C16', 'silent',
+  (HD, '''        if 'date' not in envelope.headers:''',
+   '''        if envelope.headers.get('Date') is None:''', 1))
